@@ -81,12 +81,12 @@ def mutants(r, doc, n):
             if isinstance(v, bool):
                 continue
             if isinstance(v, (int, float)):
-                new = r.choice(["abc", [1.0], {"a": 1.0}, None])
-                if p[-1] == "origin" and new is None:
-                    pass
+                # numeric-looking strings are not numbers of the format (only "nan", "inf", "-inf" are)
+                new = r.choice(["abc", [1.0], {"a": 1.0}, None, repr(float(v)), "NaN", "-Infinity", "1e1",
+                                " 1", "-INF", "0"])
             elif isinstance(v, str):
                 if v in ("nan", "inf", "-inf"):
-                    new = r.choice([[1.0], {"a": 1.0}, None, "abc"])
+                    new = r.choice([[1.0], {"a": 1.0}, None, "abc", "NaN", "Infinity", "-INF", " inf", "nan "])
                 elif p[-1] in ("name", "values:name", "bins:name", "sub:name"):
                     new = r.choice([1.0, [1.0], {"a": 1.0}, 0.0, [], {}, False, 0])
                 else:
